@@ -1,11 +1,9 @@
 SPECIFICATION Spec
 CONSTANTS
-  Cells <- AllCells
+  Cells <- OneCell
   Ops = {"A", "C"}
   MaxOps = 3
   Progs = {"c", "d", "x"}
-  Flags = {}
-INVARIANT RanIsDistinct
+  Flags = {"chain_not_reset"}
 INVARIANT StartsClean
-CONSTRAINT Export
 CHECK_DEADLOCK FALSE
